@@ -6,6 +6,7 @@ import (
 	"go/constant"
 	"go/token"
 	"go/types"
+	"sort"
 	"strings"
 
 	"golang.org/x/tools/go/ssa"
@@ -21,7 +22,7 @@ func init() {
 		[]string{"gRPC writes only through the net.Conn returned by the TransportCredentials handshake"},
 		runC05)
 	register("C11",
-		"EXCL: in Server.Accept and Client.Dial every path to a successful return on which a previous connection existed passes a receive on that connection's Done() channel (Accept: or returns io.EOF on quit); Done() returns the quit field, which the once-guarded Close closes on every path. SIDFRESH: both functions call connData.SID() on every invocation after that wait and before constructing; the sid handed to NewServerConn/NewClientConn is that fresh value (directly or through a dominating store to the sid field); on the leg 'sid changed and a previous connection exists' the old connection is stopped/closed and forgotten, so the New constructor (not Refresh) runs - Refresh only under 'previous connection exists'; ConnData.SID and HandshakePattern branch on the same remoteKey != nil predicate and SetRemote stores the key; DoHandshake publishes the remote key for version >= 2 (C04 PUBLISH, re-checked). Not decided: behaviour over sequences of connect/close/relay-failure events; that a client knowing only the passphrase is rejected after pairing (follows cryptographically from the KK pattern, C03).",
+		"EXCL: in Server.Accept and Client.Dial every path to a successful return on which a previous connection existed passes a receive on that connection's Done() channel (Accept: or returns io.EOF on quit); Done() returns the quit field, which the once-guarded Close closes on every path. SIDFRESH: both functions call connData.SID() on every invocation after that wait and before constructing; the sid handed to NewServerConn/NewClientConn is that fresh value (directly or through a dominating store to the sid field); on the leg 'sid changed and a previous connection exists' the old connection is stopped/closed and forgotten, so the New constructor (not Refresh) runs - Refresh only under 'previous connection exists'; ConnData.SID and HandshakePattern branch on the same remoteKey != nil predicate and SetRemote stores the key; DoHandshake publishes the remote key for version >= 2 (C04 PUBLISH, re-checked). FRESH: RefreshServerConn/RefreshClientConn return a newly allocated connection with a newly allocated connKit, neither filled by a whole-struct copy of the closed connection; quit is a new channel, gbnConn the result of a new gbn.New*Conn, connKit.impl the new connection, and closeOnce / recvBuffer / read and write deadlines stay at their zero value (no unread bytes, closed channel or spent Once of the closed connection reach the connection handed out next). Not decided: behaviour over sequences of connect/close/relay-failure events; that a client knowing only the passphrase is rejected after pairing (follows cryptographically from the KK pattern, C03).",
 		nil,
 		runC11)
 	register("C17",
@@ -601,6 +602,147 @@ func runC11(c *Checker) {
 			c.decide(hasFact(refresh[0].Block(), func(f Fact) bool { return isConnNonNil(f, true) }), "SIDFRESH", name+"|Refresh only with a previous connection", instrPos(refresh[0]), "under mailboxConn != nil", "Refresh runs without a previous connection")
 		}
 	}
+	// ---- FRESH: the connection handed out after a close carries no per-connection state of the closed one ----
+	for _, pr := range [][3]string{{"RefreshServerConn", "ServerConn", "NewServerConn"}, {"RefreshClientConn", "ClientConn", "NewClientConn"}} {
+		fn := w.Func("mailbox." + pr[0])
+		if fn == nil {
+			c.anchorFail("mailbox." + pr[0])
+			continue
+		}
+		var old ssa.Value
+		for _, p := range fn.Params {
+			if isNamedType(derefType(p.Type()), pr[1]) {
+				old = p
+			}
+		}
+		// the returned connection is a fresh allocation
+		var fresh *ssa.Alloc
+		okRet := old != nil
+		allInstrs(fn, func(in ssa.Instruction) {
+			ret, ok := in.(*ssa.Return)
+			if !ok {
+				return
+			}
+			for _, v := range expandValues(ret.Results[0]) {
+				if isNilConst(v) {
+					continue
+				}
+				al, ok := v.(*ssa.Alloc)
+				if !ok || !al.Heap || !isNamedType(derefType(al.Type()), pr[1]) || (fresh != nil && fresh != al) {
+					okRet = false
+					continue
+				}
+				fresh = al
+			}
+		})
+		okRet = okRet && fresh != nil
+		c.decide(okRet, "FRESH", pr[0]+"|returns a new connection object", fn.Pos(), "the refreshed connection is a fresh "+pr[1]+" allocation", "the refreshed connection is not a new object: the closed connection (closed quit channel, used closeOnce) is handed out again")
+		if !okRet {
+			continue
+		}
+		// its connKit is a fresh allocation too, and neither object is filled by a whole-struct copy
+		fKit := w.Field("mailbox." + pr[1] + ".connKit")
+		var kit *ssa.Alloc
+		okKit := fKit != nil
+		nKit := 0
+		if fKit != nil {
+			for _, st := range w.Stores(fKit) {
+				if st.Parent() != fn {
+					continue
+				}
+				nKit++
+				al, ok := st.Val.(*ssa.Alloc)
+				if !ok || !isNamedType(derefType(al.Type()), "connKit") || rootAlloc(st.Addr) != fresh {
+					okKit = false
+					continue
+				}
+				kit = al
+			}
+		}
+		okKit = okKit && nKit == 1 && kit != nil
+		whole := ""
+		allInstrs(fn, func(in ssa.Instruction) {
+			st, ok := in.(*ssa.Store)
+			if !ok {
+				return
+			}
+			if al, ok := st.Addr.(*ssa.Alloc); ok && (al == fresh || al == kit) {
+				whole = w.pos(st.Pos())
+			}
+		})
+		c.decide(okKit && whole == "", "FRESH", pr[0]+"|connKit re-created field by field", fn.Pos(), "the new connection gets a new connKit; neither is a struct copy of the previous one",
+			"the refreshed connection's connKit is shared with or copied wholesale from the closed connection"+map[bool]string{true: " (struct copy at " + whole + ")", false: ""}[whole != ""]+": buffered unread bytes and deadlines of the closed connection leak into the new one")
+		if !okKit {
+			continue
+		}
+		// per-connection state: never taken from the previous connection
+		stateful := map[string]string{
+			"connKit.recvBuffer": "unset", "connKit.readDeadline": "unset", "connKit.writeDeadline": "unset",
+			pr[1] + ".closeOnce": "unset", pr[1] + ".quit": "makechan", pr[1] + ".gbnConn": "ctor", "connKit.impl": "self",
+		}
+		var keys []string
+		for k := range stateful {
+			keys = append(keys, k)
+		}
+		sort.Strings(keys)
+		for _, k := range keys {
+			f := w.Field("mailbox." + k)
+			if f == nil {
+				c.anchorFail("mailbox." + k)
+				continue
+			}
+			okF, why := true, ""
+			n := 0
+			for _, st := range w.Stores(f) {
+				if st.Parent() != fn {
+					continue
+				}
+				if ra := rootAlloc(st.Addr); ra != fresh && ra != kit {
+					continue
+				}
+				n++
+				switch stateful[k] {
+				case "unset":
+					okF, why = false, "is assigned"
+				case "makechan":
+					if _, ok := st.Val.(*ssa.MakeChan); !ok {
+						if ct, ok2 := st.Val.(*ssa.ChangeType); !ok2 || !isMakeChan(ct.X) {
+							okF, why = false, "is not a new channel"
+						}
+					}
+				case "self":
+					okSelf := false
+					for _, v := range expandValues(st.Val) {
+						if mi, ok := v.(*ssa.MakeInterface); ok && mi.X == ssa.Value(fresh) {
+							okSelf = true
+						}
+					}
+					if !okSelf {
+						okF, why = false, "does not point at the new connection"
+					}
+				case "ctor":
+					okC := false
+					for _, v := range expandValues(st.Val) {
+						if ex, ok := v.(*ssa.Extract); ok {
+							if call, ok := ex.Tuple.(*ssa.Call); ok {
+								if sc := call.Common().StaticCallee(); sc != nil && sc.Pkg != nil && sc.Pkg.Pkg.Path() == gbnPath && sc.Name() == pr[2] {
+									okC = true
+								}
+							}
+						}
+					}
+					if !okC {
+						okF, why = false, "is not the result of gbn."+pr[2]
+					}
+				}
+			}
+			if stateful[k] != "unset" && n == 0 {
+				okF, why = false, "is never set"
+			}
+			c.decide(okF, "FRESH", pr[0]+"|"+k+" is per-connection state", fn.Pos(), map[string]string{"unset": "left at its zero value", "makechan": "a new channel", "self": "the new connection", "ctor": "a new gbn connection"}[stateful[k]],
+				k+" of the refreshed connection "+why+": state of the closed connection is carried into the connection handed out next")
+		}
+	}
 	// ConnData.SID and HandshakePattern branch on remoteKey != nil; SetRemote stores it
 	fRK := w.Field("mailbox.ConnData.remoteKey")
 	if fRK == nil {
@@ -654,6 +796,7 @@ func runC11(c *Checker) {
 	}
 	c.floor("EXCL", 6)
 	c.floor("SIDFRESH", 12)
+	c.floor("FRESH", 18)
 }
 
 func ctor0(cs []ssa.CallInstruction) ssa.Instruction {
@@ -877,15 +1020,28 @@ func runC17(c *Checker) {
 			continue
 		}
 		okk := true
-		for _, fld := range []string{"receiveSID", "sendSID"} {
-			f := w.Field("mailbox.connKit." + fld)
-			found := false
-			for _, st := range w.Stores(f) {
-				if st.Parent() == fn && isLoadOfField(st.Val, f) {
-					found = true
+		// a whole-struct copy of the previous connKit carries both IDs as well
+		wholeCopy := false
+		allInstrs(fn, func(in ssa.Instruction) {
+			if st, ok := in.(*ssa.Store); ok && isNamedType(st.Val.Type(), "connKit") {
+				if u, ok := st.Val.(*ssa.UnOp); ok && u.Op == token.MUL {
+					wholeCopy = true
 				}
 			}
-			okk = okk && found
+		})
+		for _, fld := range []string{"receiveSID", "sendSID"} {
+			f := w.Field("mailbox.connKit." + fld)
+			found, other := false, false
+			for _, st := range w.Stores(f) {
+				if st.Parent() == fn {
+					if isLoadOfField(st.Val, f) {
+						found = true
+					} else {
+						other = true
+					}
+				}
+			}
+			okk = okk && (found || (wholeCopy && !other))
 		}
 		c.decide(okk, "SIDDIR", pr[0]+"|stream IDs carried over", fn.Pos(), "receiveSID and sendSID are copied from the previous connection", "a refreshed connection does not keep both stream IDs")
 	}
@@ -983,3 +1139,28 @@ func calleeNameIsCI(ci ssa.CallInstruction, name string) bool {
 	sc := ci.Common().StaticCallee()
 	return sc != nil && sc.Name() == name
 }
+
+// isNamedType reports whether t is the named type `name` (any package of the targets).
+func isNamedType(t types.Type, name string) bool {
+	n := namedOf(t)
+	return n != nil && n.Obj().Name() == name
+}
+
+func derefType(t types.Type) types.Type { return deref(t) }
+
+// rootAlloc follows FieldAddr chains (through loads of pointer fields are NOT followed)
+// to the allocation an address lies in.
+func rootAlloc(v ssa.Value) *ssa.Alloc {
+	for {
+		switch x := v.(type) {
+		case *ssa.FieldAddr:
+			v = x.X
+		case *ssa.Alloc:
+			return x
+		default:
+			return nil
+		}
+	}
+}
+
+func isMakeChan(v ssa.Value) bool { _, ok := v.(*ssa.MakeChan); return ok }
